@@ -253,7 +253,11 @@ Definition validate_fm (p : fm_params) : outcome :=
 
 Definition update_fm := update_with validate_fm (fun _ => true).
 
-Inductive fm_op := FmCreatePool (ncat bal_fee : Z) | FmOther.
+Inductive fm_op :=
+| FmCreatePool (ncat bal_fee : Z)
+| FmCreateCP (ncat : Z)     (* MsgCreatePoolWithCommunityPool: reward categories of a proposal whose funds, LP token
+                               and deposit are in order (the driver makes sure of that) *)
+| FmOther.
 
 (** msgServer.CreatePool -> keeper.CreatePool -> DeductPoolCreationFee *)
 Definition fm_create (p : fm_params) (ncat bal_fee : Z) : res :=
@@ -263,9 +267,14 @@ Definition fm_create (p : fm_params) (ncat bal_fee : Z) : res :=
        | Some a => fee_split 200 (denom_valid (c_denom (fm_pcf p))) a (fm_tax p) bal_fee
        end.
 
+(** msgServer.CreatePoolWithCommunityPool: the category limit; no creation fee on this path *)
+Definition fm_create_cp (p : fm_params) (ncat : Z) : res :=
+  if fm_maxcat p <? ncat then Reject else Done.
+
 Definition fm_path (p : fm_params) (o : fm_op) : option res :=
   match o with
   | FmCreatePool n b => Some (fm_create p n b)
+  | FmCreateCP n => Some (fm_create_cp p n)
   | FmOther => None
   end.
 
@@ -452,30 +461,89 @@ Definition validate_sv (p : sv_params) : outcome :=
 Definition update_sv := update_with validate_sv (fun _ => true).
 
 Inductive sv_op :=
-| SvBind (price deposit qos bal : Z)     (* MsgBindService, price and deposit in stake *)
+| SvBind (price deposit qos bal pd : Z)  (* MsgBindService: price (in denom class pd) and deposit in stake *)
 | SvCall (timeout : Z)                   (* MsgCallService, fee cap in stake *)
 | SvRespond (fee esc : Z)                (* MsgRespondService: request fee, balance of the request escrow *)
 | SvBlocks (deposits : list Z)           (* end-blockers; deposits of the bindings whose requests expire *)
+| SvUpdate (avail : bool) (price dep add qos bal : Z)
+                                         (* MsgUpdateServiceBinding (no new pricing / options): the binding met
+                                            (available, stored price and deposit in stake), deposit added, new QoS (0 = keep) *)
+| SvEnable (avail : bool) (price dep add bal : Z)   (* MsgEnableServiceBinding *)
+| SvRefund (avail : bool) (dep disabled now : Z)    (* MsgRefundServiceDeposit: disabled / block time in unix ns *)
+| SvUpdateCtx (completed : bool) (cap timeout ctx_timeout ctx_freq total batch : Z)
+                                         (* MsgUpdateRequestContext of a context the consumer created: new fee cap in
+                                            stake (0 = none), new timeout (0 = keep), repeated total, and the context met *)
 | SvOther.
 
 Definition two64 : Z := 18446744073709551616.
 
-(** keeper.AddServiceBinding: validateDeposit, QoS, GetMinDeposit, deposit >= minimum *)
-Definition sv_bind (p : sv_params) (price deposit qos bal : Z) : res :=
+(** keeper.GetMinDeposit for a price in the base denom, then [deposit.IsAllGTE(minDeposit)]:
+    [inl why] = abort, [inr b] = whether a deposit of [dep] (base denom) suffices *)
+Definition sv_deposit_enough (p : sv_params) (price dep : Z) : Z + bool :=
+  let m0 := price * sv_mult p in
+  if negb (int_ok m0) then inl 402                           (* basePrice.Mul(minDepositMultiple): "integer overflow" *)
+  else if m0 <? 0 then inl 401                               (* NewCoin(base, price * multiple) negative *)
+  else
+    let pst := coins_amount_of 1 (sv_mindep p) in
+    let other := existsb (fun c => negb (c_denom c =? 1)) (sv_mindep p) in
+    let use_param := negb (m0 =? 0) && (m0 <? pst) in
+    inr (if use_param then (pst <=? dep) && negb other else m0 <=? dep).
+
+(** keeper.AddServiceBinding: validateDeposit, QoS, ParsePricing (restricted fee denom), GetMinDeposit
+    (a price in another denom needs an exchange rate: none is registered), deposit >= minimum *)
+Definition sv_bind (p : sv_params) (price deposit qos bal pd : Z) : res :=
   if negb (sv_base p =? 1) then Reject                       (* deposit only accepts the base denom *)
   else if (sv_maxto p) mod two64 <? qos then Reject          (* qos > uint64(maxReqTimeout) *)
+  else if sv_restricted p && negb (pd =? sv_base p) then Reject   (* validatePricing: service fee only accepts the base denom *)
+  else if negb (pd =? sv_base p) && negb (price =? 0) then Reject (* GetExchangeRate fails *)
+  else match sv_deposit_enough p price deposit with
+       | inl w => Panic w
+       | inr false => Reject
+       | inr true => if bal <? deposit then Reject else Done
+       end.
+
+(** keeper.UpdateServiceBinding with empty pricing and options *)
+Definition sv_update (p : sv_params) (avail : bool) (price dep add qos bal : Z) : res :=
+  if negb (qos =? 0) && ((sv_maxto p) mod two64 <? qos) then Reject
+  else if negb (add =? 0) && negb (sv_base p =? 1) then Reject   (* validateDeposit *)
   else
-    let m0 := price * sv_mult p in
-    if negb (int_ok m0) then Panic 402                       (* basePrice.Mul(minDepositMultiple): "integer overflow" *)
-    else if m0 <? 0 then Panic 401                                (* NewCoin(base, price * multiple) negative *)
-    else
-      let pst := coins_amount_of 1 (sv_mindep p) in
-      let other := existsb (fun c => negb (c_denom c =? 1)) (sv_mindep p) in
-      let use_param := negb (m0 =? 0) && (m0 <? pst) in
-      let enough := if use_param then (pst <=? deposit) && negb other else m0 <=? deposit in
-      if negb enough then Reject
-      else if bal <? deposit then Reject
-      else Done.
+    let updated := negb (qos =? 0) || negb (add =? 0) in
+    let pay := if bal <? add then Reject else Done in
+    if avail && updated then
+      match sv_deposit_enough p price (dep + add) with
+      | inl w => Panic w
+      | inr false => Reject
+      | inr true => pay
+      end
+    else pay.
+
+(** keeper.EnableServiceBinding *)
+Definition sv_enable (p : sv_params) (avail : bool) (price dep add bal : Z) : res :=
+  if avail then Reject
+  else if negb (add =? 0) && negb (sv_base p =? 1) then Reject
+  else match sv_deposit_enough p price (dep + add) with
+       | inl w => Panic w
+       | inr false => Reject
+       | inr true => if bal <? add then Reject else Done
+       end.
+
+(** keeper.RefundDeposit: refundable from disabledTime + arbitration limit + complaint retrospect *)
+Definition sv_refund (p : sv_params) (avail : bool) (dep disabled now : Z) : res :=
+  if avail then Reject
+  else if dep =? 0 then Reject
+  else if now <? disabled + sv_arbitr p + sv_complaint p then Reject
+  else Done.
+
+(** keeper.UpdateRequestContext (context not created by a module) *)
+Definition sv_update_ctx (p : sv_params) (completed : bool) (cap timeout ctx_timeout ctx_freq total batch : Z) : res :=
+  if completed then Reject
+  else if negb (cap =? 0) && negb (sv_base p =? 1) then Reject   (* validateServiceFeeCap *)
+  else if sv_maxto p <? timeout then Reject
+  else
+    let t := if timeout =? 0 then ctx_timeout else timeout in
+    if ctx_freq <? t mod two64 then Reject                       (* repeatedFreq < uint64(timeout) *)
+    else if (1 <=? total) && (total <? batch) then Reject
+    else Done.
 
 (** keeper.CreateRequestContext *)
 Definition sv_call (p : sv_params) (timeout : Z) : res :=
@@ -518,7 +586,11 @@ Fixpoint sv_blocks (p : sv_params) (deps : list Z) : res :=
 
 Definition sv_path (p : sv_params) (o : sv_op) : option res :=
   match o with
-  | SvBind pr dep q b => Some (sv_bind p pr dep q b)
+  | SvBind pr dep q b pd => Some (sv_bind p pr dep q b pd)
+  | SvUpdate av pr dep add q b => Some (sv_update p av pr dep add q b)
+  | SvEnable av pr dep add b => Some (sv_enable p av pr dep add b)
+  | SvRefund av dep dis now => Some (sv_refund p av dep dis now)
+  | SvUpdateCtx c cap t ct cf tot bat => Some (sv_update_ctx p c cap t ct cf tot bat)
   | SvCall t => Some (sv_call p t)
   | SvRespond f e => Some (sv_respond p f e)
   | SvBlocks ds => Some (sv_blocks p ds)
@@ -555,6 +627,9 @@ Definition update_tk := update_with validate_tk (fun p => c_denom (tk_fee p) =? 
 Inductive tk_op :=
 | TkIssue (factor bal : Z)     (* MsgIssueToken: fee factor of the symbol (decimal), owner's stake *)
 | TkMint (factor bal : Z)      (* MsgMintToken *)
+| TkDeploy (has_contract : bool)             (* MsgDeployERC20 by the authority for an existing token *)
+| TkSwapTo (has_contract : bool) (amt bal : Z)    (* MsgSwapToERC20: amount / sender balance in the token's min unit *)
+| TkSwapFrom (has_contract : bool) (amt ebal : Z) (* MsgSwapFromERC20: amount / sender balance on the ERC20 side *)
 | TkOther.
 
 (** keeper.calcTokenIssueFee, GetToken(fee denom): the issue fee in the fee token's min unit
@@ -604,8 +679,31 @@ Definition tk_mint (p : tk_params) (F bal : Z) : res :=
       end
   end.
 
+(** keeper.DeployERC20: contract already bound, the ERC20 switch, the beacon (the EVM behind the
+    interface is the harness's mock: a deployment with a beacon succeeds) *)
+Definition tk_deploy (p : tk_params) (has_contract : bool) : res :=
+  if has_contract then Reject
+  else if negb (tk_erc20 p) then Reject
+  else if tk_beacon p =? 0 then Reject
+  else Done.
+
+(** keeper.SwapToERC20 / SwapFromERC20 (receiver is not an existing account) *)
+Definition tk_swap_to (p : tk_params) (has_contract : bool) (amt bal : Z) : res :=
+  if negb (tk_erc20 p) then Reject
+  else if negb has_contract then Reject
+  else if bal <? amt then Reject
+  else Done.
+Definition tk_swap_from (p : tk_params) (has_contract : bool) (amt ebal : Z) : res :=
+  if negb (tk_erc20 p) then Reject
+  else if negb has_contract then Reject
+  else if ebal <? amt then Reject
+  else Done.
+
 Definition tk_path (p : tk_params) (o : tk_op) : option res :=
   match o with
+  | TkDeploy c => Some (tk_deploy p c)
+  | TkSwapTo c a b => Some (tk_swap_to p c a b)
+  | TkSwapFrom c a b => Some (tk_swap_from p c a b)
   | TkIssue f b => Some (tk_issue p f b)
   | TkMint f b => Some (tk_mint p f b)
   | TkOther => None
@@ -692,7 +790,7 @@ Definition cs_op_wf (o : cs_op) : Prop :=
 Definition two192 : Z := 2 ^ 192.
 Definition sv_op_wf (o : sv_op) : Prop :=
   match o with
-  | SvBind price _ _ _ => 0 <= price < two192
+  | SvBind price _ _ _ _ | SvUpdate _ price _ _ _ _ | SvEnable _ price _ _ _ => 0 <= price < two192
   | SvRespond fee _ => 0 <= fee < two255
   | SvBlocks deps => Forall (fun d => 0 <= d < two255) deps
   | _ => True
@@ -702,7 +800,7 @@ Definition sv_op_wf (o : sv_op) : Prop :=
 Definition tk_op_wf (o : tk_op) : Prop :=
   match o with
   | TkIssue F _ | TkMint F _ => P18 <= F
-  | TkOther => True
+  | _ => True
   end.
 
 (** (2) The known findings (extreme magnitudes): a creation / issue fee amount of 2^255.2 or more
